@@ -19,6 +19,7 @@ RULE = ("(1) Exhaustive small scope: a universe of labelled nodes carrying two e
         "get_ancestry, child_index) is evaluated against the model in every reached state.  (2) Hypothesis rule-based "
         "state machine over 8-12 nodes and three names with queries interleaved.  Non-trivial: a (state, operation) pair "
         "that shifts or replaces a node with >= 2 siblings; distinct pairs counted (exhaustive part by construction).")
+RULE += ('  The state machine also copies subtrees (the copy joins the forest as a tree of its own): later edits on either side stay on that side.')
 ASSUMPTIONS = [
     "a node is attached only when it is listed nowhere and is not an ancestor of the target (quantifier)",
     "parent links of detached nodes are not part of the tree (remove / replace leave them stale) and are not checked; "
